@@ -65,6 +65,11 @@ func (m *DomainMatcher) Add(labels [][]byte) {
 		if i == 0 { // is leaf
 			currentNode.AddLeaf(label)
 		} else {
+			if child, ok := currentNode.GetChild(label); ok && child == nil {
+				// A shorter entry already matches this domain and all its
+				// subdomains. Do not replace that leaf with an inner node.
+				return
+			}
 			child := currentNode.GetOrAddChild(label)
 			currentNode = child
 		}
